@@ -69,6 +69,8 @@ type c17Line struct {
 	widePlaced bool
 	noWide     bool
 	noCRLF     bool // the scenario does not vary the line ending for this derivation
+	// the leaf under construction starts with a letter: no € / 😀 in its first slot
+	letterFirst bool
 }
 
 var c17WideChars = []string{"é", "€", "😀"}
@@ -125,6 +127,17 @@ func (l *c17Line) slots(name string, n int, first, mid, last string, onlyLetter 
 			k = zzverif.Choice(name+".wide", 3)
 			if k > 0 {
 				w = (k - 1) * (n - 1)
+			}
+		case l.letterFirst: // none | é first | 😀 last
+			if n == 1 {
+				k = zzverif.Choice(name+".wide", 2)
+			} else {
+				k = zzverif.Choice(name+".wide", 3)
+			}
+			if k == 2 {
+				w, ch = n-1, 2
+			} else if k == 1 {
+				w, ch = 0, 0
 			}
 		case n == 1:
 			k = zzverif.Choice(name+".wide", 4)
@@ -397,7 +410,10 @@ func (l *c17Line) account(name string, segs, n int, first string) {
 		if n > 1 {
 			k = 1 + zzverif.Choice(name+".len"+zzverif.Itoa(s), n)
 		}
+		// an account that is to start with a letter does not start with € or 😀 either (scenario 5 does)
+		l.letterFirst = s == 0 && first == zzverif.Letters
 		l.slots(name+".seg"+zzverif.Itoa(s), k, f, c17SegMid, c17SegA, false)
+		l.letterFirst = false
 	}
 	l.lexeme(m, lfAccount, c17Bit(ttAccount))
 }
@@ -650,9 +666,6 @@ func c17Scenario(l *c17Line, sc, n int, long bool) []*c17Line {
 		l.plainAccount("acct")
 		l.spaces(zzverif.Choice("pc.ws", 3))
 		kind := zzverif.Choice("pc.kind", 5)
-		if c17DevKind >= 0 {
-			zzverif.Assume(kind == c17DevKind)
-		}
 		// quick: every blank / length variant of a single tag; two-part comments in their plainest form
 		if kind <= 2 {
 			l.comment("pc", kind, n, true)
@@ -1200,38 +1213,3 @@ func verifC17Geo(long bool, n int, sc int) {
 
 func VerifC17Geometry()     { verifC17Geo(false, 2, zzverif.Choice("scenario", c17Scenarios)) }
 func VerifC17GeometryLong() { verifC17Geo(true, 3, zzverif.Choice("scenario", c17Scenarios)) }
-
-// dev entry points (removed before delivery)
-func VerifC17GeoDev0()   { verifC17Geo(false, 2, 0) }
-func VerifC17GeoDev1()   { verifC17Geo(false, 2, 1) }
-func VerifC17GeoDev2()   { verifC17Geo(false, 2, 2) }
-func VerifC17GeoDev3()   { verifC17Geo(false, 2, 3) }
-func VerifC17GeoDev4()   { verifC17Geo(false, 2, 4) }
-func VerifC17GeoDev5()   { verifC17Geo(false, 2, 5) }
-func VerifC17GeoDev6()   { verifC17Geo(false, 2, 6) }
-func VerifC17GeoDev7()   { verifC17Geo(false, 2, 7) }
-func VerifC17GeoDev8()   { verifC17Geo(false, 2, 8) }
-func VerifC17GeoDev9()   { verifC17Geo(false, 2, 9) }
-func VerifC17GeoDev10()  { verifC17Geo(false, 2, 10) }
-func VerifC17GeoDev11()  { verifC17Geo(false, 2, 11) }
-func VerifC17GeoDev12()  { verifC17Geo(false, 2, 12) }
-func VerifC17GeoDevL0()  { verifC17Geo(true, 3, 0) }
-func VerifC17GeoDevL1()  { verifC17Geo(true, 3, 1) }
-func VerifC17GeoDevL2()  { verifC17Geo(true, 3, 2) }
-func VerifC17GeoDevL3()  { verifC17Geo(true, 3, 3) }
-func VerifC17GeoDevL4()  { verifC17Geo(true, 3, 4) }
-func VerifC17GeoDevL5()  { verifC17Geo(true, 3, 5) }
-func VerifC17GeoDevL6()  { verifC17Geo(true, 3, 6) }
-func VerifC17GeoDevL7()  { verifC17Geo(true, 3, 7) }
-func VerifC17GeoDevL8()  { verifC17Geo(true, 3, 8) }
-func VerifC17GeoDevL9()  { verifC17Geo(true, 3, 9) }
-func VerifC17GeoDevL10() { verifC17Geo(true, 3, 10) }
-func VerifC17GeoDevL11() { verifC17Geo(true, 3, 11) }
-func VerifC17GeoDevL12() { verifC17Geo(true, 3, 12) }
-
-var c17DevKind = -1
-
-func VerifC17GeoDev8k1() { c17DevKind = 1; verifC17Geo(false, 2, 8) }
-func VerifC17GeoDev8k2() { c17DevKind = 2; verifC17Geo(false, 2, 8) }
-func VerifC17GeoDev8k3() { c17DevKind = 3; verifC17Geo(false, 2, 8) }
-func VerifC17GeoDev8k4() { c17DevKind = 4; verifC17Geo(false, 2, 8) }
